@@ -374,10 +374,9 @@ def returnOne (s : St) : Arg × Bool → R
           | f :: _ => returnField s (mkField name (some (srcRef f))) false
           | [] => raise "IndexError"
         else raise "QueryException"
-  | (.term (.func n sc args d sp ef fi ov pa oo fr np al), agg) =>
-    if agg then raise "QueryException" else returnOther s (.func n sc args d sp ef fi ov pa oo fr np al)
-  | (.term (.arith op l r al), agg) =>
-    if agg then raise "QueryException" else returnOther s (.arith op l r al)
+  | (.term t, agg) =>
+    -- every other Term: an aggregate one (`is_aggregate` truthy) is rejected, whatever its class
+    if agg then raise "QueryException" else returnOther s t
   | (a, _) => returnOther s (wrapConst (isSqlite s) a)
 
 def returnAll (s : St) : List (Arg × Bool) → R
